@@ -571,4 +571,226 @@ theorem implRun_eq_specRun (O : Oracle) (fuel : Nat) (P : Program) (hwf : P.WF)
     | nil => simp [groupEquations, specGroups, doTop, makeData, destList]
     | cons g gs => exact key _ hwf hfuel
 
+
+/-- one pass of an iterated group, followed by the convergence query once `min ≤ count` -/
+def onePass (O : Oracle) (a : Attrs) (convEqs : List Equation) (body : Hist → Hist)
+    (count : Nat) (h : Hist) : Hist :=
+  if a.minIter ≤ count then (queryConv O convEqs (body h)).1 else body h
+
+/-- the generated check `count >= min and (converged or count == max)` after the pass numbered
+`count` that started from history `h` -/
+def stopsAfter (O : Oracle) (a : Attrs) (convEqs : List Equation) (body : Hist → Hist)
+    (count : Nat) (h : Hist) : Bool :=
+  decide (a.minIter ≤ count) && ((queryConv O convEqs (body h)).2 || count == a.maxIter)
+
+/-- `n` consecutive passes, numbered `count`, `count + 1`, … -/
+def passes (O : Oracle) (a : Attrs) (convEqs : List Equation) (body : Hist → Hist) :
+    Nat → Nat → Hist → Hist
+  | 0, _, h => h
+  | n + 1, count, h => passes O a convEqs body n (count + 1) (onePass O a convEqs body count h)
+
+theorem implIter_passes (O : Oracle) (gid : GId) (a : Attrs) (convEqs : List Equation)
+    (body : Hist → Hist) (rem fuel count : Nat) (h : Hist)
+    (hsum : count + rem = a.maxIter) (hmin : a.minIter ≤ a.maxIter) (hfuel : rem + 1 ≤ fuel) :
+    ∃ m, 1 ≤ m ∧ m ≤ rem + 1 ∧ a.minIter ≤ count + m - 1 ∧
+      implIter O gid a convEqs body fuel count h = passes O a convEqs body m count h ∧
+      stopsAfter O a convEqs body (count + m - 1) (passes O a convEqs body (m - 1) count h) = true ∧
+      ∀ j, j < m - 1 →
+        stopsAfter O a convEqs body (count + j) (passes O a convEqs body j count h) = false := by
+  induction rem generalizing fuel count h with
+  | zero =>
+    obtain ⟨f, rfl⟩ : ∃ f, fuel = f + 1 := ⟨fuel - 1, by omega⟩
+    have hc : count = a.maxIter := by omega
+    refine ⟨1, by omega, by omega, by omega, ?_, ?_, ?_⟩
+    · simp [implIter, passes, onePass, hc, hmin]
+    · simp [passes, stopsAfter, hc, hmin]
+    · intro j hj; omega
+  | succ r ih =>
+    obtain ⟨f, rfl⟩ : ∃ f, fuel = f + 1 := ⟨fuel - 1, by omega⟩
+    have hne : (count == a.maxIter) = false := by
+      have : count ≠ a.maxIter := by omega
+      simpa using this
+    by_cases hstop : stopsAfter O a convEqs body count h = true
+    · refine ⟨1, by omega, by omega, ?_, ?_, ?_, ?_⟩
+      · simp only [stopsAfter, Bool.and_eq_true, decide_eq_true_eq] at hstop
+        omega
+      · simp only [stopsAfter, Bool.and_eq_true, decide_eq_true_eq, hne, Bool.or_false] at hstop
+        simp [implIter, passes, onePass, hstop.1, hstop.2]
+      · simpa [passes] using hstop
+      · intro j hj; omega
+    · have hstop' : stopsAfter O a convEqs body count h = false := by simpa using hstop
+      obtain ⟨m, h1, h2, h3, h4, h5, h6⟩ :=
+        ih f (count + 1) (onePass O a convEqs body count h) (by omega) (by omega)
+      refine ⟨m + 1, by omega, by omega, by omega, ?_, ?_, ?_⟩
+      · rw [show passes O a convEqs body (m + 1) count h =
+            passes O a convEqs body m (count + 1) (onePass O a convEqs body count h) from rfl, ← h4]
+        simp only [stopsAfter, hne, Bool.or_false] at hstop'
+        simp only [implIter, onePass]
+        by_cases hlt : a.minIter ≤ count
+        · have hq : (queryConv O convEqs (body h)).2 = false := by simpa [hlt] using hstop'
+          simp [hlt, hq, hne]
+        · simp [hlt]
+      · obtain ⟨m', rfl⟩ : ∃ m', m = m' + 1 := ⟨m - 1, by omega⟩
+        have : count + (m' + 1 + 1) - 1 = count + 1 + (m' + 1) - 1 := by omega
+        rw [this]
+        simpa [passes] using h5
+      · intro j hj
+        cases j with
+        | zero => simpa [passes] using hstop'
+        | succ j' =>
+          have := h6 j' (by omega)
+          have e : count + (j' + 1) = count + 1 + j' := by omega
+          rw [e]
+          simpa [passes] using this
+
+
+/-- calls of equation methods (as opposed to group-level events) -/
+def Event.isHook : Event → Bool
+  | .pyInit .. | .init .. | .loopNoSrc .. | .initPair .. | .loopAll .. | .loop .. | .postLoop ..
+  | .reduce .. => true
+  | _ => false
+
+/-- `h'` extends `h` by events satisfying `P` -/
+def Ext (P : Event → Prop) (h h' : Hist) : Prop := ∃ new, h' = new ++ h ∧ ∀ e ∈ new, P e
+
+theorem Ext.refl {P : Event → Prop} (h : Hist) : Ext P h h := ⟨[], rfl, by simp⟩
+
+theorem Ext.trans {P : Event → Prop} {a b c : Hist} (h1 : Ext P a b) (h2 : Ext P b c) :
+    Ext P a c := by
+  obtain ⟨n1, e1, p1⟩ := h1
+  obtain ⟨n2, e2, p2⟩ := h2
+  refine ⟨n2 ++ n1, by rw [e2, e1, List.append_assoc], ?_⟩
+  intro e he
+  rcases List.mem_append.mp he with h' | h'
+  · exact p2 e h'
+  · exact p1 e h'
+
+theorem Ext.cons {P : Event → Prop} {e : Event} (he : P e) (h : Hist) : Ext P h (e :: h) :=
+  ⟨[e], rfl, by simpa using he⟩
+
+theorem ext_forEach {α : Type} {P : Event → Prop} (l : List α) (f : α → Hist → Hist)
+    (hf : ∀ a ∈ l, ∀ h, Ext P h (f a h)) (h : Hist) : Ext P h (forEach l f h) := by
+  induction l generalizing h with
+  | nil => exact Ext.refl h
+  | cons a l ih =>
+    exact Ext.trans (hf a (by simp) h) (ih (fun b hb => hf b (by simp [hb])) (f a h))
+
+theorem ext_callAll {P : Event → Prop} (g : List Equation) (k : Hook) (mk : Equation → Event)
+    (hmk : ∀ e, P (mk e)) (h : Hist) : Ext P h (callAll g k mk h) := by
+  unfold callAll
+  apply ext_forEach
+  intro e _ h
+  unfold callOne
+  by_cases hk : e.has k
+  · simpa [hk] using Ext.cons (hmk e) h
+  · simpa [hk] using Ext.refl h
+
+theorem ext_guardedLoop {α : Type} {P : Event → Prop} (b : Bool) (l : List α)
+    (f : α → Hist → Hist) (hf : ∀ a h, Ext P h (f a h)) (h : Hist) :
+    Ext P h (guardedLoop b l f h) := by
+  unfold guardedLoop
+  cases b
+  · exact Ext.refl h
+  · exact ext_forEach l f (fun a _ => hf a) h
+
+theorem ext_guardedIf {P : Event → Prop} (b : Bool) (f : Hist → Hist)
+    (hf : ∀ h, Ext P h (f h)) (h : Hist) : Ext P h (guardedIf b f h) := by
+  unfold guardedIf
+  cases b
+  · exact Ext.refl h
+  · exact hf h
+
+def HookOnly : Event → Prop := fun e => e.isHook = true
+
+theorem hook_callAll (g : List Equation) (k : Hook) (mk : Equation → Event)
+    (hmk : ∀ e, (mk e).isHook = true) (h : Hist) : Ext HookOnly h (callAll g k mk h) :=
+  ext_callAll g k mk hmk h
+
+theorem hook_loopNbr (d s i : Nat) (g : List Equation) (j : Nat) (h : Hist) :
+    Ext HookOnly h (loopNbr d s i g j h) := hook_callAll g _ _ (fun _ => rfl) h
+theorem hook_initPairParticle (d s : Nat) (g : List Equation) (i : Nat) (h : Hist) :
+    Ext HookOnly h (initPairParticle d s g i h) := hook_callAll g _ _ (fun _ => rfl) h
+theorem hook_initParticle (d : Nat) (g : List Equation) (i : Nat) (h : Hist) :
+    Ext HookOnly h (initParticle d g i h) := hook_callAll g _ _ (fun _ => rfl) h
+theorem hook_noSrcParticle (d : Nat) (g : List Equation) (i : Nat) (h : Hist) :
+    Ext HookOnly h (noSrcParticle d g i h) := hook_callAll g _ _ (fun _ => rfl) h
+theorem hook_postLoopParticle (d : Nat) (g : List Equation) (i : Nat) (h : Hist) :
+    Ext HookOnly h (postLoopParticle d g i h) := hook_callAll g _ _ (fun _ => rfl) h
+
+theorem ext_srcParticle (O : Oracle) (d s : Nat) (g : List Equation) (i : Nat) (h : Hist) :
+    Ext HookOnly h (srcParticle O d s g i h) := by
+  unfold srcParticle
+  simp only
+  refine Ext.trans ?_ (ext_guardedLoop _ _ _ (hook_loopNbr d s i g) _)
+  exact ext_guardedIf _ _ (hook_callAll g _ _ (fun _ => rfl)) h
+
+theorem ext_doSource (O : Oracle) (d : Nat) (rng : List Nat) (sg : Nat × List Equation)
+    (h : Hist) : Ext HookOnly h (doSource O d rng sg h) := by
+  unfold doSource
+  refine Ext.trans ?_ (ext_guardedLoop _ _ _ (ext_srcParticle O d sg.1 sg.2) _)
+  exact ext_guardedLoop _ _ _ (hook_initPairParticle d sg.1 sg.2) h
+
+theorem ext_doDest (O : Oracle) (a : Attrs) (ddd : Nat × DestData) (h : Hist) :
+    Ext HookOnly h (doDest O a ddd h) := by
+  unfold doDest
+  simp only
+  refine Ext.trans ?_ (ext_guardedIf _ _ (hook_callAll _ _ _ (fun _ => rfl)) _)
+  refine Ext.trans ?_ (ext_guardedLoop _ _ _ (hook_postLoopParticle _ _) _)
+  refine Ext.trans ?_ (ext_forEach _ _ (fun sg _ h => ext_doSource O _ _ sg h) _)
+  refine Ext.trans ?_ (ext_guardedLoop _ _ _ (hook_noSrcParticle _ _) _)
+  refine Ext.trans ?_ (ext_guardedLoop _ _ _ (hook_initParticle _ _) _)
+  exact hook_callAll _ _ _ (fun _ => rfl) h
+
+/-- shape of one pass over a group: `pre` first, `post` last, the NNPS refresh just before
+`post`, and only equation-method calls in between -/
+theorem doGroup_shape (O : Oracle) (gid : GId) (a : Attrs) (data : List (Nat × DestData))
+    (h : Hist) :
+    ∃ mid, (∀ e ∈ mid, e.isHook = true) ∧
+      doGroup O gid a data h =
+        (if a.hasPost then [Event.post gid] else []) ++
+        (if a.updateNnps then [Event.nnps gid] else []) ++ mid ++
+        (if a.hasPre then [Event.pre gid] else []) ++ h := by
+  unfold doGroup emitIf
+  obtain ⟨mid, e1, p1⟩ := ext_forEach (P := HookOnly) data (doDest O a)
+    (fun ddd _ h => ext_doDest O a ddd h)
+    (if a.hasPre = true then Event.pre gid :: h else h)
+  refine ⟨mid, p1, ?_⟩
+  simp only [e1]
+  cases a.hasPre <;> cases a.updateNnps <;> cases a.hasPost <;> simp
+
+
+/-! ## Decidability of well-formedness and concrete programs for the non-vacuity examples -/
+
+instance (l : Leaf) : Decidable l.WF := by unfold Leaf.WF; infer_instance
+instance (a : Attrs) : Decidable a.silent := by unfold Attrs.silent; infer_instance
+instance (a : Attrs) : Decidable a.iterOK := by unfold Attrs.iterOK; infer_instance
+instance (g : Top) : Decidable g.WF := by cases g <;> (unfold Top.WF; infer_instance)
+instance (P : Program) : Decidable P.WF := by unfold Program.WF; infer_instance
+
+namespace Example
+/-- two arrays (0: 2 real + 1 ghost, 1: 3 real), an iterated group with two destinations and a
+source-free equation, then a conditional group with two sub-groups (second over ghosts too,
+named start) -/
+def prog : Program := .groups [
+  .leaf ⟨{ iterate := true, minIter := 2, maxIter := 3, hasPre := true, updateNnps := true },
+    [⟨1, 1, [0, 1], [.pyInit, .init, .loop, .postLoop]⟩, ⟨2, 0, [], [.loop, .reduce]⟩,
+     ⟨3, 1, [1], [.initPair, .loopAll, .loop]⟩]⟩,
+  .parent { hasCond := true, hasPost := true }
+    [⟨{ stop := some (.num 1) }, [⟨4, 0, [1], [.loopAll, .reduce]⟩]⟩,
+     ⟨{ real := false, start := .named 0, hasCond := true, hasPre := true }, [⟨5, 0, [0], [.init, .loop]⟩]⟩]]
+
+/-- a history-dependent oracle: convergence once 60 calls have been made, neighbours and sizes
+change after the first NNPS refresh, the second sub-group's condition fails -/
+def oracle : Oracle where
+  cond _ g := g.sub != some 1 || g.top != 1
+  conv h e := decide (60 < h.length) || e == 2
+  size h a real := if a == 0 then (if real then 2 else 3) else (if h.length < 30 then 3 else 2)
+  named _ _ _ := 1
+  nbrs h _ s i := if h.length < 30 then [i, s] else [s]
+
+def emptyWithPre : Program := .groups [.leaf ⟨{ hasPre := true }, []⟩]
+def minGtMax : Program :=
+  .groups [.leaf ⟨{ iterate := true, minIter := 3, maxIter := 2 }, [⟨1, 0, [], [.reduce]⟩]⟩]
+end Example
+
 end PysphVerif.Schedule
